@@ -4,7 +4,7 @@
 use fbh::gal::*;
 use fbh::mapmodel::*;
 use fbh::prng::Rng;
-use fbh::report::{guarded, Report};
+use fbh::report::{crumb, guarded, Report};
 use fbh::Ctx;
 use quill::remapper::ARemapper;
 use quill::tree::mappings::Mappings;
@@ -201,6 +201,8 @@ fn perms<T: Clone>(l: &[T]) -> Vec<Vec<T>> {
 // ---------- one call through implementation, reference and laws ----------
 /// Returns the implementation's outcome.  `laws`: also check identity/inverse/failure laws.
 fn through(r: &mut Report, m: &MMappings, names: &[S], stream: &str) -> anyhow::Result<Outcome> {
+	crumb(&format!("property C08\nthe harness process died inside (or right after) this call\ncall: mappings.reorder({:?})\nmappings (tiny-like, <none> = absent name):\n{}\nmappings (Gallina): {}\n",
+		names.iter().map(|s| show(s)).collect::<Vec<_>>(), show_mappings(m), g_mappings(m)));
 	let (out, desync) = impl_reorder(m, names)?;
 	let want = ref_reorder(m, names);
 	let ok = matches!(out, Ok(Some(_)));
@@ -248,6 +250,25 @@ fn through(r: &mut Report, m: &MMappings, names: &[S], stream: &str) -> anyhow::
 							if !back_same { vio(r, "reordering by a permutation and then by its inverse does not give back the original".into(), m, names, &format!("after the first reorder: {}\nafter the inverse: {}", show_outcome(&out), show_outcome(&back))); }
 						} else {
 							r.count(&format!("{stream}:inverse-hypothesis-violated:{}", if back_same { "still-inverse" } else { "not-inverse" }));
+						}
+						// two-step law (the action law, C08_reorder_compose): reordering the RESULT to a further order Y is the
+						// same (Ok up to insertion order, or Err) as reordering the original to Y directly.  All orders Y for
+						// n <= 3, a quarter of the 24 for n = 4 (which quarter depends on the first order).
+						if hyp {
+							let salt: usize = table.iter().enumerate().map(|(i, &j)| (i + 1) * j).sum();
+							let shown = |v: &[S]| v.iter().map(|s| show(s)).collect::<Vec<_>>();
+							for (k, names2) in perms(&m.ns).into_iter().enumerate() {
+								if m.ns.len() >= 4 && (k + salt) % 4 != 0 { continue; }
+								let (two, _) = impl_reorder(m2, &names2)?;
+								let (direct, _) = impl_reorder(m, &names2)?;
+								let same2 = match (&two, &direct) { (Ok(None), Ok(None)) => true, (Ok(Some(x)), Ok(Some(y))) => x.equiv(y), _ => false };
+								r.count(&format!("two-step-law:{}", match &direct { Ok(Some(_)) => "Ok", Ok(None) => "Err", Err(_) => "panic" }));
+								r.evaluations += 1;
+								if !same2 {
+									vio(r, format!("reordering to {:?} and then to {:?} differs from reordering to {:?} directly", shown(names), shown(&names2), shown(&names2)),
+										m, names, &format!("after the first reorder: {}\nthen reordered to the second order: {}\noriginal reordered to the second order directly: {}", show_outcome(&out), show_outcome(&two), show_outcome(&direct)));
+								}
+							}
 						}
 					}
 				}
@@ -381,7 +402,7 @@ pub fn run(ctx: &Ctx) -> anyhow::Result<Report> {
 	let mut r = Report::new("C08", "C08.Run");
 	let mut rng = Rng::new(ctx.seed);
 	let t = ctx.thorough;
-	r.rule = "mapping sets with n = 2, 3, 4 namespaces from mapmodel::gen_mappings (classes with $-nesting and packages, fields, methods, parameters with holes, comments at every level including the mapping set's own comment (probability 1/3, set here: the shared generator leaves it None), unicode) post-processed so that every row is full and names are unique per level and column ('full'), or with random holes ('partial'); descriptors mention mapped classes, unmapped classes and arrays of both; for each set EVERY permutation of its namespaces is reordered (the Coq model enumerates the n! permutations itself, CPerms). Further streams: an entry without a name in the future first namespace (must fail), duplicate names in the future first namespace (duplicate key => Err), an unmapped descriptor class equal to a target name (collision: hypothesis of the inverse law violated), a class name containing ';', malformed descriptors, non-permutation / unknown / duplicate namespace arrays, remapper_a(from,to).map_field_desc on valid and malformed descriptors, the repository's fixture. Oracle on the implementation: independent reference reorder (equal up to order), identity law, inverse law on the implementation's own output (when no_collision and clean hold), failure law, key/info sync of the result, entry count. One evaluation = one (mapping set, namespace array); non-trivial = at least one class and the result is Ok; distinct by the printed input.".into();
+	r.rule = "mapping sets with n = 2, 3, 4 namespaces from mapmodel::gen_mappings (classes with $-nesting and packages, fields, methods, parameters with holes, comments at every level including the mapping set's own comment (probability 1/3, set here: the shared generator leaves it None), unicode) post-processed so that every row is full and names are unique per level and column ('full'), or with random holes ('partial'); descriptors mention mapped classes, unmapped classes and arrays of both; for each set EVERY permutation of its namespaces is reordered (the Coq model enumerates the n! permutations itself, CPerms). Further streams: an entry without a name in the future first namespace (must fail), duplicate names in the future first namespace (duplicate key => Err), an unmapped descriptor class equal to a target name (collision: hypothesis of the inverse law violated), a class name containing ';', malformed descriptors, non-permutation / unknown / duplicate namespace arrays, remapper_a(from,to).map_field_desc on valid and malformed descriptors, the repository's fixture. Oracle on the implementation: independent reference reorder (equal up to order), identity law, inverse law on the implementation's own output (when no_collision and clean hold), two-step law on the implementation's own output (reordering the result to a further order Y = reordering the original to Y directly, Ok up to order or Err; every Y for n <= 3, six of the 24 for n = 4; same hypotheses), failure law, key/info sync of the result, entry count. One evaluation = one (mapping set, namespace array); non-trivial = at least one class and the result is Ok; distinct by the printed input.".into();
 
 	// 0. the repository's fixture (VERIF_REPO, default /repo); a missing or renamed fixture is a note, not a verdict
 	{
@@ -410,6 +431,8 @@ pub fn run(ctx: &Ctx) -> anyhow::Result<Report> {
 			let stream = if i < full { format!("perms{n}-full") } else { punch(&mut rng, &mut m, 10); format!("perms{n}-partial") };
 			r.count(if m.doc.is_some() { "top-level comment:Some" } else { "top-level comment:None" });
 			r.count(&format!("size:{}", match m.size() { 0 => "0", 1..=5 => "1-5", 6..=15 => "6-15", _ => "16+" }));
+			if m.classes.iter().any(|c| c.names.iter().any(|o| o.is_none())) { r.count(&format!("perms{n}:some CLASS lacks a name in a namespace")); }
+			if m.classes.iter().any(|c| c.fields.iter().any(|f| f.names.iter().any(|o| o.is_none())) || c.methods.iter().any(|f| f.names.iter().any(|o| o.is_none()))) { r.count(&format!("perms{n}:some field/method lacks a name in a namespace")); }
 			all_perms(&mut r, &m, &stream)?;
 		}
 	}
@@ -545,6 +568,16 @@ pub fn run(ctx: &Ctx) -> anyhow::Result<Report> {
 		}
 		r.count(&format!("names:kind{}", i % 4));
 		one(&mut r, &m, &names, "non-permutation")?;
+	}
+
+	// 6b. `Namespace::<N>::new(id)` (the table entries of reorder are such values): Ok exactly for id < N
+	for n in 2..=4usize {
+		for id in 0..=n + 1 {
+			let ok = match n { 2 => Namespace::<2>::new(id).is_ok(), 3 => Namespace::<3>::new(id).is_ok(), _ => Namespace::<4>::new(id).is_ok() };
+			r.evaluations += 1;
+			r.count(&format!("Namespace::new:{}", if ok { "Ok" } else { "Err" }));
+			if ok != (id < n) { r.violation(format!("Namespace::<{n}>::new({id}) is {}", if ok { "Ok" } else { "Err" }), format!("property C08\nwhat: Namespace::<{n}>::new({id}).is_ok() = {ok}, expected {}\n", id < n)); }
+		}
 	}
 
 	// 7. remapper_a(from, to).map_field_desc
